@@ -627,6 +627,8 @@ where
             break;
         }
         fw.0.store(false, Ordering::SeqCst);
+        // poll boundary (once per poll in which something was logged)
+        with(|c| if c.log.last().is_some_and(|l| l != "POLL") { c.log.push("POLL".to_owned()); });
         let before = with(|c| c.log.len());
         let polled = std::panic::catch_unwind(std::panic::AssertUnwindSafe(|| stream.as_mut().poll_next(&mut cx)));
         let polled = match polled {
@@ -707,7 +709,7 @@ where
                 // nothing to open: a helper thread may be sleeping for a retry delay, or the runner
                 // is in a yield chain; keep polling for a bounded wall time
                 let since = *idle_since.get_or_insert_with(Instant::now);
-                if since.elapsed() > Duration::from_millis(1500) {
+                if since.elapsed() > Duration::from_millis(4000) {
                     log("HARNESS stuck".to_owned());
                     stuck = true;
                     break;
